@@ -20,7 +20,7 @@ type MirrorCase struct {
 	Ops []Op
 }
 
-var mnames = []string{"a", "d", "x", "y", "f", "e", "n1", "n2", "n1"}
+var mnames = []string{"a", "d", "x", "y", "f", "e", "n1", "n2", "n1", "..data", "..."}
 
 func genMirrorOp(t *rapid.T) Op {
 	op := Op{Kind: rapid.SampledFrom([]string{"walk", "walk", "walk", "create", "create", "create", "open", "open", "read", "read", "write", "write", "write", "chmod", "truncate", "rename", "rename", "remove", "clunk", "fstat", "fstat", "list", "list", "attach"}).Draw(t, "kind")}
@@ -45,7 +45,7 @@ func genMirrorOp(t *rapid.T) Op {
 			}
 		}
 	case "create":
-		op.Name = B(rapid.SampledFrom([]string{"n1", "n2", "n1", "x", "f", "a", "", "s/l"}).Draw(t, "name"))
+		op.Name = B(rapid.SampledFrom([]string{"n1", "n2", "n1", "x", "f", "a", "", "s/l", "..data", "...", "..2024-01-01", ".hidden", "a..b"}).Draw(t, "name"))
 		op.Dir = rapid.IntRange(0, 2).Draw(t, "dir") == 0
 		op.Perm = rapid.SampledFrom([]uint32{0644, 0600, 0755, 0700, 0666, 0444, 0, 0777, 01644}).Draw(t, "perm")
 		op.Mode = rapid.SampledFrom([]uint8{0, 1, 2, 2, 3, 0x10, 0x11, 0x12, 0x31, 0x32, 0x22}).Draw(t, "mode")
@@ -63,7 +63,7 @@ func genMirrorOp(t *rapid.T) Op {
 	case "truncate":
 		op.Length = rapid.SampledFrom([]uint64{0, 1, 5, 13, 22, 40, 4096, 1 << 63}).Draw(t, "length")
 	case "rename":
-		op.Name = B(rapid.SampledFrom([]string{"n1", "n2", "x", "f", "a", "r1", "r1", "/abs"}).Draw(t, "name"))
+		op.Name = B(rapid.SampledFrom([]string{"n1", "n2", "x", "f", "a", "r1", "r1", "/abs", "..data", "...", ".r"}).Draw(t, "name"))
 	}
 	return op
 }
@@ -113,6 +113,48 @@ func GenMirror(t *rapid.T) MirrorCase {
 			{Kind: rapid.SampledFrom([]string{"remove", "remove", "fstat", "rename", "chmod"}).Draw(t, "swapuse"), Fid: 5, Name: harn.B("r9"), Perm: 0700},
 		}
 		at := rapid.IntRange(1, len(c.Ops)).Draw(t, "swapat")
+		c.Ops = append(c.Ops[:at], append(block, c.Ops[at:]...)...)
+	}
+	B := func(s ...string) []harn.B {
+		var out []harn.B
+		for _, x := range s {
+			out = append(out, harn.B(x))
+		}
+		return out
+	}
+	if rapid.IntRange(0, 5).Draw(t, "renopen") == 0 {
+		// an open fid is renamed, successfully or onto something the host refuses, and used on
+		target := rapid.SampledFrom([]string{"a", "e", "r7", "x"}).Draw(t, "rentarget")
+		block := []Op{
+			{Kind: "clunk", Fid: 5},
+			{Kind: "walk", Fid: 0, Newfid: 5, Names: B("f")},
+			{Kind: "open", Fid: 5, Mode: 2},
+			{Kind: "write", Fid: 5, Data: "hello", Offset: 0},
+			{Kind: "rename", Fid: 5, Name: harn.B(target)},
+			{Kind: "write", Fid: 5, Data: "W", Offset: 1},
+			{Kind: "read", Fid: 5, Count: 64, Offset: 0},
+			{Kind: "clunk", Fid: 5},
+		}
+		at := rapid.IntRange(1, len(c.Ops)).Draw(t, "renat")
+		c.Ops = append(c.Ops[:at], append(block, c.Ops[at:]...)...)
+	}
+	if rapid.IntRange(0, 5).Draw(t, "relist") == 0 {
+		// a directory is listed, one of its entries changes without the directory itself changing, and it is listed again
+		block := []Op{
+			{Kind: "clunk", Fid: 5}, {Kind: "clunk", Fid: 6},
+			{Kind: "walk", Fid: 0, Newfid: 6, Names: B("a")},
+			{Kind: "list", Fid: 6},
+			{Kind: "walk", Fid: 0, Newfid: 5, Names: B("a", "x")},
+			{Kind: "open", Fid: 5, Mode: 1},
+			{Kind: "write", Fid: 5, Data: "0123456789abcdef", Offset: rapid.SampledFrom([]int64{0, 13, 30}).Draw(t, "reloff")},
+			{Kind: "list", Fid: 6},
+			{Kind: "chmod", Fid: 5, Perm: rapid.SampledFrom([]uint32{0600, 0444, 0755}).Draw(t, "relperm")},
+			{Kind: "list", Fid: 6},
+			{Kind: "truncate", Fid: 5, Length: rapid.SampledFrom([]uint64{0, 1, 5}).Draw(t, "rellen")},
+			{Kind: "list", Fid: 6},
+			{Kind: "fstat", Fid: 5},
+		}
+		at := rapid.IntRange(1, len(c.Ops)).Draw(t, "relat")
 		c.Ops = append(c.Ops[:at], append(block, c.Ops[at:]...)...)
 	}
 	return c
